@@ -61,7 +61,8 @@ def replay_harness(ctx, casefile, toks):
 def parse(t):
     """-> (header dict, [op dict]) ; raises on malformed"""
     U = t[3]
-    hd = {"hosts": {0: "mocknet", 1: "tcp+noise+yamux", 2: "tcp+noise+yamux via circuit-v2 relay"}.get(t[1], t[1]), "rcmgr": bool(t[2] & 1), "limited_conn": bool(t[2] & 2), "U": U,
+    hd = {"hosts": {0: "mocknet", 1: "tcp+noise+yamux", 2: "tcp+noise+yamux via circuit-v2 relay", 3: "mocknet, BlankHost listener",
+                    4: "tcp+noise+yamux, negotiation timeout 300ms", 9: "BlankHost probe (tcp, real rcmgr)"}.get(t[1], t[1]), "rcmgr": bool(t[2] & 1), "limited_conn": bool(t[2] & 2), "U": U,
           "limD": t[4:4 + U], "limL": t[4 + U:4 + 2 * U]}
     i = 4 + 2 * U
     ops = []
@@ -111,6 +112,13 @@ def parse(t):
             ops.append({"op": "Close", "slot": t[i + 1], "how": t[i + 2], "outD": t[i + 3:i + 3 + U],
                         "inL": t[i + 3 + U:i + 3 + 2 * U]})
             i += 3 + 2 * U
+        elif c == 7:
+            d, wt = t[i + 1], t[i + 2]
+            i += 3
+            mx = lst()
+            ops.append({"op": "Reconnect", "dialed_by": "dialer's swarm" if d == 0 else "listener", "identify_awaited": bool(wt),
+                        "mux": mx, "outD": t[i:i + U], "inL": t[i + U:i + 2 * U]})
+            i += 2 * U
         else:
             raise ValueError("bad op")
     return hd, ops
@@ -162,6 +170,8 @@ def key(tag, toks, d):
                 tab.pop(p["name"], None)
             elif p["op"] in ("SetKnowledge", "Open"):
                 know = p["know"]
+            elif p["op"] == "Reconnect":
+                know = ["fresh"] + p["mux"]
         if o["op"] == "Open":
             obs = [[r[k] for k in ("res", "dp", "use", "lp", "ninv", "hlp")] for r in o["results"]]
             return "C07:open:rcmgr=%d:limited=%d:table=%s:know=%s:reqs=%s:allow=%s:obs=%s:un=%d" % (
